@@ -1,6 +1,769 @@
-"""Notebook-level merge family (placeholder until the notebook generator
-lands): add_parts() attaches the notebook parts of a property's check."""
+"""Harness family "three-way notebook merge" (real merge_notebooks /
+decide_notebook_merge / apply_decisions).
+
+base = notebook from cell templates; local and remote = base after independent
+edit scripts (one action per cell and an optional insertion per side), chosen
+by E.choice; strategy arguments and the text-merge back end are selectors
+too.  Symbolic leaves: execution counts, metadata values, JSON payload
+numbers, nbformat_minor of each of the three notebooks.
+
+Obligations by property: C03 completes; C04 merged validates; C05 laws; C06
+disjoint ownership; C07 provenance / flagging; C09 decisions; C10 use-*;
+C11 decision diffs well-formed; C13 inputs unchanged.
+"""
+import argparse
+import itertools
+
+from sx.values import json_identical, land, lnot, lor, implies, snapshot
+from gen import notebooks as G
+from oracles import schema as schemas
+from oracles.refapply import refapply, RefApplyError, ordering_errors
+from oracles.refpatch import RefPatchError
+from oracles.provenance import fabricated_lines, dropped_lines, marker_free
+from oracles.alias import shared_containers
+from . import common, fam_merge, fam_nbdiff
+
+MERGE_STRATS = ("inline", "use-base", "use-local", "use-remote")
+INPUT_STRATS = (None,) + MERGE_STRATS
+OUTPUT_STRATS = (None,) + MERGE_STRATS + ("remove", "clear-all")
+TOOLS = ("git", "diff3", "builtin")
+
+# per-side action lists
+ACTS_CODE = ["keep", "del", "src1", "src2", "src3", "src4", "src6", "rerun", "ec", "out_edit", "out_edit2",
+             "out_clear", "out_add", "md_edit", "md_add", "md_del", "md_collapsed", "id"]
+ACTS_SMALL = ["keep", "del", "src1", "src2", "rerun", "out_edit", "out_edit2", "md_edit"]
+ACTS_MD = ["keep", "del", "src1", "src2", "src3", "src4", "md_edit", "att_add", "att_del", "att_edit",
+           "att_rename", "id"]
+ACTS_CONFLICT = ["src1", "src2", "del", "out_edit", "out_edit2", "md_edit", "rerun"]
+INS_SIDE = {"l": [None, ("N1", 0), ("N2", 1), ("N1", 1)], "r": [None, ("N1s", 0), ("N2", 1), ("Nm", 0), ("N1", 1)]}
 
 
-def add_parts(chk, prop, tier, known):
-    return
+def mk_args(merge_strategy="inline", input_strategy=None, output_strategy=None,
+            ignore_transients=True):
+    return argparse.Namespace(merge_strategy=merge_strategy, input_strategy=input_strategy,
+                              output_strategy=output_strategy, ignore_transients=ignore_transients,
+                              log_level="INFO")
+
+
+_counter = [0]
+
+
+def install_env(tool):
+    """Stubs (part of the claim): which() inside nbdime.prettyprint answers
+    according to the tool selector; marker-cell ids come from a counter."""
+    import nbdime.prettyprint as pp
+    import nbformat.v4.nbbase as nbbase
+    import shutil
+
+    def which(name, *a, **k):
+        if tool == "git":
+            return shutil.which(name)
+        if tool == "diff3":
+            return None if name == "git" else shutil.which(name)
+        return None if name in ("git", "diff3", "diff") else shutil.which(name)
+    pp.which = which
+    _counter[0] = 0
+
+    def cell_id():
+        _counter[0] += 1
+        return "marker%03d" % _counter[0]
+    nbbase.random_cell_id = cell_id
+
+
+def applicable_actions(tmpl, acts, with_ids):
+    al = fam_nbdiff.actions_for(tmpl, acts)
+    if not with_ids:
+        al = [a for a in al if a != "id"]
+    return al
+
+
+def gen_triple(E, templates, acts_l, acts_r, ins_l, ins_r, nbacts, ids, sym, conflict_only=False):
+    with_ids = ids[E.choice("ids", len(ids))] if len(ids) > 1 else ids[0]
+    ctx = G.Ctx(E, bool(with_ids), sym=sym)
+    base = G.base_notebook(ctx, templates)
+    sl, sr = [], []
+    for i, t in enumerate(templates):
+        al = applicable_actions(t, acts_l, with_ids)
+        ar = applicable_actions(t, acts_r, with_ids)
+        sl.append(al[E.choice("l%d" % i, len(al))])
+        sr.append(ar[E.choice("r%d" % i, len(ar))])
+    il = ins_l[E.choice("li", len(ins_l))] if len(ins_l) > 1 else ins_l[0]
+    ir = ins_r[E.choice("ri", len(ins_r))] if len(ins_r) > 1 else ins_r[0]
+    n = len(templates)
+    insl = {min(il[1], n): il[0]} if il else {}
+    insr = {min(ir[1], n): ir[0]} if ir else {}
+    nl = nbacts[E.choice("lnb", len(nbacts))] if len(nbacts) > 1 else nbacts[0]
+    nr = nbacts[E.choice("rnb", len(nbacts))] if len(nbacts) > 1 else nbacts[0]
+    if conflict_only:
+        touch = any(a != "keep" and b != "keep" for a, b in zip(sl, sr))
+        same_gap = bool(insl) and bool(insr) and set(insl) == set(insr)
+        if not (touch or same_gap or (nl != "keep" and nr != "keep")):
+            E.assume(False)
+    L = G.derive(ctx, base, "l", sl, insl, nl)
+    R = G.derive(ctx, base, "r", sr, insr, nr)
+    info = dict(with_ids=with_ids, sl=sl, sr=sr, insl=insl, insr=insr, nl=nl, nr=nr, ctx=ctx)
+    return G.finalize(base), G.finalize(L), G.finalize(R), info
+
+
+def run_merge(b, l, r, args):
+    from nbdime.merging.notebooks import merge_notebooks
+    return merge_notebooks(b, l, r, args)
+
+
+def source_lines(nb):
+    out = []
+    for c in nb.get("cells", []):
+        s = c.get("source", "")
+        if isinstance(s, list):
+            s = "".join(s)
+        out.append(s)
+    return out
+
+
+def merge_obligations(E, b, l, r, args, tool, props, known, info=None):
+    """Run the merge and state the obligations of the selected properties.
+    Returns (merged, decisions) or None."""
+    c13 = "C13" in props
+    if "F13" in known and tool == "diff3" and ("C07" in props) and any(
+            s_ and not s_.endswith("\n") for nb in (b, l, r) for s_ in source_lines(nb)):
+        # F13: diff3 glues its markers to a last line that has no newline
+        E.known("F13")
+        return None
+    if c13:
+        snaps = (snapshot(b), snapshot(l), snapshot(r))
+    try:
+        res = run_merge(b, l, r, args)
+        merged, decisions = res
+    except Exception as ex:  # noqa
+        import traceback
+        tb = traceback.extract_tb(ex.__traceback__)
+        where = "%s:%d %s" % (tb[-1].filename.split("/nbdime/")[-1], tb[-1].lineno, tb[-1].name)
+        sig = "%s: %s @ %s" % (type(ex).__name__, str(ex)[:120], where)
+        fid = common.match_exception_finding(known, sig)
+        if fid:
+            E.known(fid)
+            return None
+        if "C03" in props or "C09" in props or "C10" in props:
+            E.fail("merge-raised", sig)
+        return None
+    conflicted = any(d.conflict for d in decisions)
+    E.nontrivial(len(decisions) > 0)
+    E.goal("conflict", conflicted)
+    E.goal("clean-two-sided", not conflicted and any(d.local_diff for d in decisions)
+           and any(d.remote_diff for d in decisions))
+    for d in decisions:
+        if d.get("strategy"):
+            pass
+        E.goal("action-" + str(d.action))
+        if d.action == "custom" and d.conflict:
+            E.goal("custom-conflict")
+    if "C03" in props:
+        E.check("merge-returns-notebook-and-list",
+                isinstance(merged, dict) and isinstance(decisions, list) and "cells" in merged)
+    if c13:
+        E.check("merge-leaves-base-unchanged", json_identical(b, snaps[0]))
+        E.check("merge-leaves-local-unchanged", json_identical(l, snaps[1]))
+        E.check("merge-leaves-remote-unchanged", json_identical(r, snaps[2]))
+        sh = shared_containers(merged, [("base", b)])
+        E.check("merged-shares-no-container-with-base", not sh, info=sh[:3])
+    if "C04" in props:
+        errs = schemas.nb_schema_errors(E.instance(merged))
+        errs2 = []
+        for e in errs:
+            fid = common.match_schema_finding(known, e, E.instance(merged))
+            if fid:
+                E.known(fid)
+            else:
+                errs2.append(e)
+        E.goal("merged-has-marker-cells", any("marker" in str(c.get("id", "")) or
+               "<span style=\"color:red\">" in str(c.get("source", "")) for c in merged.cells))
+        E.check("merged-validates-against-declared-format", not errs2, info=errs2[:3])
+    if "C07" in props:
+        fab = fabricated_lines(source_lines(b), source_lines(l), source_lines(r), source_lines(merged))
+        E.check("no-fabricated-source-line", not fab, info=fab[:3])
+        drop = dropped_lines(source_lines(b), source_lines(l), source_lines(r), source_lines(merged))
+        E.check("no-dropped-added-line", not drop, info=drop[:3])
+    if "C09" in props or "C11" in props:
+        relabel_ok = args.merge_strategy == "mergetool"
+        decision_obligations_nb(E, b, l, r, merged, decisions, props, known, relabel_ok)
+    return merged, decisions
+
+
+def decision_obligations_nb(E, b, l, r, merged, decisions, props, known, relabel_ok):
+    extra = ("take_max",) if "F15" in known else ()
+    if any(d.action == "take_max" for d in decisions) and "F15" in known:
+        E.known("F15")
+    if "C09" in props:
+        try:
+            rm = refapply(b, decisions, extra_actions=extra)
+        except (RefApplyError, RefPatchError) as ex:
+            E.fail("refapply-rejects-decisions", str(ex)[:300])
+            return
+        E.check("refapply(base,decisions)==merged", json_identical(rm, merged))
+        if relabel_ok:
+            for side, target in (("local", l), ("remote", r)):
+                def relabel(dec, side=side):
+                    return side if dec.get(side + "_diff") else "base"
+                try:
+                    x = refapply(b, decisions, relabel=relabel, extra_actions=extra)
+                except (RefApplyError, RefPatchError) as ex:
+                    E.fail("choose-%s-rejected" % side, str(ex)[:300])
+                    return
+                E.check("choose-%s-everywhere==%s" % (side, side), json_identical(x, target))
+        errs = ordering_errors(decisions)
+        E.check("decisions-ordered-inner-before-enclosing", not errs, info=errs[:2])
+        inst = E.instance([dict(d) for d in decisions])
+        errs = schemas.merge_schema_errors(inst)
+        if "F15" in known:
+            errs = [e for e in errs if "take_max" not in e]
+        E.check("decisions-validate-against-schema", not errs, info=errs[:3])
+        E.check("decisions-survive-json-roundtrip", schemas.json_roundtrip_ok(inst))
+    if "C11" in props:
+        from oracles.wellformed import wellformed
+        for i, d in enumerate(decisions):
+            try:
+                sub, level = fam_merge.sub_document(b, d.common_path)
+            except (KeyError, IndexError, TypeError):
+                E.fail("decision-path-unresolvable", repr(d.common_path))
+                return
+            for field in ("local_diff", "remote_diff", "custom_diff"):
+                df = d.get(field)
+                if df:
+                    if any(e.get("op") == "parent_deleted" for e in _walk_entries(df)):
+                        E.goal("parent-deleted-op")
+                    errs = wellformed(df, sub, path="dec%d.%s" % (i, field), level=level)
+                    E.check("decision-diff-wellformed", not errs, info=errs[:3])
+
+
+def _walk_entries(diff):
+    for e in diff:
+        yield e
+        if e.get("op") == "patch" and isinstance(e.get("diff"), list):
+            for x in _walk_entries(e["diff"]):
+                yield x
+
+
+# ------------------------------------------------------------------ factories
+def make_default(templates, acts="ACTS_CODE", ins=(1, 1), nbacts=("keep",), ids=(0, 1), tool="git",
+                 strat=("inline", None, None, True), props=("C03",), known=(),
+                 sym=("ec", "md", "json", "minor"), conflict_only=False):
+    """One strategy configuration, full product of local x remote scripts."""
+    acts_ = globals()[acts]
+
+    def h(E):
+        install_env(tool)
+        b, l, r, info = gen_triple(
+            E, templates, acts_, acts_,
+            INS_SIDE["l"] if ins[0] else [None], INS_SIDE["r"] if ins[1] else [None],
+            nbacts, ids, sym, conflict_only)
+        fam_nbdiff.assert_valid_inputs(E, b, l, r)
+        args = mk_args(*strat)
+        merge_obligations(E, b, l, r, args, tool, props, known, info)
+    return h, dict(reset=common.nbdime_reset)
+
+
+def make_strategies(templates, script, tools=TOOLS, ids=(0,), props=("C03",), known=(),
+                    sym=("ec", "md"), which="all"):
+    """A fixed conflict-prone script pair under the whole strategy product
+    (4 x 5 x 7 x 2 + mergetool) and every text-merge back end."""
+    sl, sr, insl, insr = script
+
+    def h(E):
+        tool = tools[E.choice("tool", len(tools))] if len(tools) > 1 else tools[0]
+        install_env(tool)
+        mt = E.choice("mergetool", 2) if which == "all" else 0
+        if mt:
+            args = mk_args("mergetool", None, None, bool(E.choice("transients", 2)))
+        else:
+            ms = MERGE_STRATS[E.choice("ms", len(MERGE_STRATS))]
+            i_s = INPUT_STRATS[E.choice("is", len(INPUT_STRATS))]
+            os_ = OUTPUT_STRATS[E.choice("os", len(OUTPUT_STRATS))]
+            tr = bool(E.choice("transients", 2))
+            args = mk_args(ms, i_s, os_, tr)
+        with_ids = ids[E.choice("ids", len(ids))] if len(ids) > 1 else ids[0]
+        ctx = G.Ctx(E, bool(with_ids), sym=sym)
+        base = G.base_notebook(ctx, templates)
+        L = G.derive(ctx, base, "l", list(sl), dict(insl), "keep")
+        R = G.derive(ctx, base, "r", list(sr), dict(insr), "keep")
+        b, l, r = G.finalize(base), G.finalize(L), G.finalize(R)
+        fam_nbdiff.assert_valid_inputs(E, b, l, r)
+        merge_obligations(E, b, l, r, args, tool, props, known)
+    return h, dict(reset=common.nbdime_reset)
+
+
+CONFLICT_SCRIPTS = [
+    # (templates, local script, remote script, local inserts, remote inserts)
+    (("codeA",), ("src1",), ("src2",), {}, {}),                  # same line, different text
+    (("codeA",), ("del",), ("src1",), {}, {}),                   # delete vs edit
+    (("codeA",), ("src1",), ("del",), {}, {}),
+    (("codeA",), ("out_edit",), ("out_edit2",), {}, {}),         # output conflict
+    (("codeA",), ("md_edit",), ("md_edit",), {}, {}),            # metadata conflict
+    (("codeA",), ("keep",), ("keep",), {0: "N1"}, {0: "N1s"}),   # similar concurrent inserts
+    (("codeA",), ("keep",), ("keep",), {1: "N1"}, {1: "N2"}),    # dissimilar concurrent inserts
+    (("codeA",), ("del",), ("keep",), {}, {0: "N2"}),            # insert next to deleted
+    (("codeB",), ("rerun",), ("rerun",), {}, {}),                # both re-run
+    (("codeB",), ("rerun",), ("src1",), {}, {}),
+    (("mdAtt",), ("att_edit",), ("att_edit",), {}, {}),          # attachment conflict
+    (("mdAtt",), ("att_add",), ("att_add",), {}, {}),
+    (("mdAtt",), ("att_del",), ("att_edit",), {}, {}),
+    (("codeA", "codeB"), ("src1", "del"), ("src2", "out_edit"), {}, {}),
+    (("codeRes2",), ("out_edit",), ("rerun",), {}, {}),
+    (("codeDisp",), ("out_edit",), ("out_edit2",), {}, {}),
+    (("codeJobj",), ("out_edit",), ("out_edit2",), {}, {}),
+    (("md",), ("src1",), ("src2",), {}, {}),
+    (("codeS",), ("src1",), ("src2",), {}, {}),
+]
+
+
+# --------------------------------------------------------------------- shards
+QUICK_TEMPLATES = ["codeA", "codeB", "mdAtt", "codeRes2", "codeS", "raw", "codeJobj", "codeErr"]
+
+
+ACTS_INS = ["keep", "del", "src1"]
+ACTS_F13 = ["src1", "src4"]
+ACTS_PAIR = ["keep", "del", "src1", "src2", "rerun", "md_edit"]
+
+
+def default_shards(tier, props, known, tools=("git",), conflict_only=False, templates=None):
+    """Default-strategy (or any single configuration via `strat`) shards:
+    per template (i) every local action x every remote action, (ii) every
+    insertion combination x a small action set, (iii) notebook-level actions;
+    plus two-cell bases with a reduced action set."""
+    kw = dict(props=tuple(props), known=tuple(known), conflict_only=conflict_only)
+    out = []
+    templates = templates or (QUICK_TEMPLATES if tier == "quick" else fam_nbdiff.ALL_TEMPLATES)
+    for tool in tools:
+        for t in templates:
+            acts = "ACTS_MD" if G.TEMPLATES[t]["type"] == "markdown" else "ACTS_CODE"
+            out.append(("make_default", "act-%s-%s" % (tool, t),
+                        dict(templates=(t,), acts=acts, ins=(0, 0), nbacts=("keep",), tool=tool, **kw)))
+            out.append(("make_default", "ins-%s-%s" % (tool, t),
+                        dict(templates=(t,), acts="ACTS_INS", ins=(1, 1), nbacts=("keep",), tool=tool, **kw)))
+        for t in templates[:2]:
+            out.append(("make_default", "nb-%s-%s" % (tool, t),
+                        dict(templates=(t,), acts="ACTS_INS", ins=(0, 0),
+                             nbacts=("keep", "md_edit", "md_add", "md_del", "minor"), tool=tool, **kw)))
+        pairs = [("codeA", "codeB")] if tier == "quick" else [
+            ("codeA", "codeB"), ("codeA", "mdAtt"), ("codeS", "codeS"), ("codeA", "codeA"), ("md", "codeRes2")]
+        for p in pairs:
+            out.append(("make_default", "pair-%s-%s-%s" % ((tool,) + p),
+                        dict(templates=p, acts="ACTS_PAIR", ins=(0, 0), nbacts=("keep",), tool=tool, **kw)))
+            if tier == "thorough":
+                out.append(("make_default", "pairins-%s-%s-%s" % ((tool,) + p),
+                            dict(templates=p, acts="ACTS_INS", ins=(1, 1), nbacts=("keep",), tool=tool, **kw)))
+    return out
+
+
+def strategy_shards(tier, props, known, tools=TOOLS, which="all"):
+    kw = dict(props=tuple(props), known=tuple(known))
+    out = []
+    for i, (tm, sl, sr, il, ir) in enumerate(CONFLICT_SCRIPTS):
+        out.append(("make_strategies", "strat-%02d" % i,
+                    dict(templates=tm, script=(sl, sr, tuple(il.items()), tuple(ir.items())),
+                         tools=tools, ids=(0, 1) if tier == "thorough" else ((0,) if i % 2 else (1,)),
+                         which=which, **kw)))
+    return out
+
+
+# ------------------------------------------------------------------ C10
+USE = ("use-base", "use-local", "use-remote")
+ACTS_SRC = ["keep", "src1", "src2", "src4", "src5"]   # edits that keep the cell similar (conflicts stay inside the source)
+ACTS_OUT = ["keep", "out_edit", "out_edit2", "out_add", "out_del"]   # touch nothing but the outputs list
+
+
+def make_use(templates, mode="merge", acts="ACTS_SMALL", ins=(0, 0), ids=(0, 1), tools=("git",),
+             props=("C10",), known=(), sym=("ec", "md")):
+    """mode 'merge': --merge-strategy s; 'input' / 'output': s given as input /
+    output strategy with scripts that can only conflict inside sources /
+    outputs.  Compared with the mergetool decisions with every conflicted
+    decision relabelled to that side, applied by the reference applier."""
+    acts_ = globals()[acts]
+
+    def h(E):
+        from nbdime.merging.notebooks import decide_notebook_merge
+        tool = tools[E.choice("tool", len(tools))] if len(tools) > 1 else tools[0]
+        install_env(tool)
+        s = USE[E.choice("use", 3)]
+        tr = bool(E.choice("transients", 2))
+        b, l, r, info = gen_triple(
+            E, templates, acts_, acts_,
+            INS_SIDE["l"] if ins[0] else [None], INS_SIDE["r"] if ins[1] else [None],
+            ("keep",), ids, sym)
+        if mode == "merge":
+            args = mk_args(s, None, None, tr)
+        elif mode == "input":
+            args = mk_args("inline", s, None, tr)
+        else:
+            args = mk_args("inline", None, s, tr)
+        try:
+            m1, d1 = run_merge(b, l, r, args)
+            d0 = decide_notebook_merge(b, l, r, mk_args("mergetool", None, None, tr))
+        except Exception as ex:  # noqa
+            E.fail("merge-raised", "%s: %s" % (type(ex).__name__, str(ex)[:200]))
+            return
+        had_conflict = any(d.conflict for d in d0)
+        E.nontrivial(had_conflict)
+        E.goal("open-conflict-resolved", had_conflict)
+        E.check("use-strategy-leaves-no-conflict", not any(d.conflict for d in d1),
+                info="%s/%s scripts %r %r ins %r %r: %r" % (
+                    s, mode, info["sl"], info["sr"], info["insl"], info["insr"],
+                    [dict(path=d.common_path, action=d.action) for d in d1 if d.conflict][:2]))
+        side = s[4:]
+
+        def relabel(dec):
+            if dec.get("conflict"):
+                return side
+            return dec["action"]
+        try:
+            m2 = refapply(b, d0, relabel=relabel)
+        except (RefApplyError, RefPatchError) as ex:
+            E.fail("reference-resolution-rejected", str(ex)[:300])
+            return
+        E.check("use-strategy==resolve-every-conflict-to-that-side", json_identical(m1, m2),
+                info="strategy %s (%s)" % (s, mode))
+        fab = fabricated_lines(source_lines(b), source_lines(l), source_lines(r),
+                               source_lines(m1), allow_markers=False)
+        E.check("no-source-line-absent-from-all-inputs", not fab, info=fab[:3])
+    return h, dict(reset=common.nbdime_reset)
+
+
+def use_shards(tier, props, known):
+    kw = dict(props=tuple(props), known=tuple(known))
+    out = []
+    singles = ["codeA", "codeB", "mdAtt", "codeRes2"] if tier == "quick" else fam_nbdiff.ALL_TEMPLATES
+    for t in singles:
+        acts = "ACTS_MD" if G.TEMPLATES[t]["type"] == "markdown" else ("ACTS_SMALL" if tier == "quick" else "ACTS_CODE")
+        out.append(("make_use", "use-merge-%s" % t, dict(templates=(t,), mode="merge", acts=acts, **kw)))
+        out.append(("make_use", "use-merge-ins-%s" % t,
+                    dict(templates=(t,), mode="merge", acts="ACTS_INS", ins=(1, 1), **kw)))
+    for t in ["codeA", "codeRes2"] + (["md", "codeS"] if tier == "thorough" else []):
+        out.append(("make_use", "use-input-%s" % t, dict(templates=(t,), mode="input", acts="ACTS_SRC", **kw)))
+    for t in ["codeA", "codeRes2"] + (["codeDisp", "codeJobj"] if tier == "thorough" else []):
+        out.append(("make_use", "use-output-%s" % t, dict(templates=(t,), mode="output", acts="ACTS_OUT", **kw)))
+    pairs = [("codeA", "codeB")] + ([("codeA", "codeA"), ("md", "codeRes2")] if tier == "thorough" else [])
+    for p in pairs:
+        out.append(("make_use", "use-merge-%s-%s" % p,
+                    dict(templates=p, mode="merge", acts="ACTS_PAIR" if tier == "thorough" else "ACTS_INS",
+                         tools=("git",), **kw)))
+    if tier == "thorough":
+        out.append(("make_use", "use-tools-codeA", dict(templates=("codeA",), mode="merge", acts="ACTS_SRC",
+                                                        tools=TOOLS, **kw)))
+    return out
+
+
+# ------------------------------------------------------------------ C05 (notebooks)
+CLI_CONFIGS = [("inline", None, None, True), ("use-base", None, None, True), ("use-local", None, None, True),
+               ("use-remote", None, None, True), ("inline", "use-local", "remove", False),
+               ("inline", None, "clear-all", True), ("mergetool", None, None, True)]
+
+
+def make_nblaws(templates, acts="ACTS_CODE", ins=1, nbacts=("keep",), ids=(0, 1), configs=(0,),
+                props=("C05",), known=(), sym=("ec", "md", "json", "minor")):
+    acts_ = globals()[acts]
+
+    def h(E):
+        install_env("git")
+        cfg = CLI_CONFIGS[configs[E.choice("cfg", len(configs))] if len(configs) > 1 else configs[0]]
+        with_ids = ids[E.choice("ids", len(ids))] if len(ids) > 1 else ids[0]
+        ctx = G.Ctx(E, bool(with_ids), sym=sym)
+        base = G.base_notebook(ctx, templates)
+        script = []
+        for i, t in enumerate(templates):
+            al = applicable_actions(t, acts_, with_ids)
+            script.append(al[E.choice("x%d" % i, len(al))])
+        insx = {}
+        if ins:
+            c = INS_SIDE["l"][E.choice("xi", len(INS_SIDE["l"]))]
+            if c:
+                insx = {min(c[1], len(templates)): c[0]}
+        nba = nbacts[E.choice("xnb", len(nbacts))] if len(nbacts) > 1 else nbacts[0]
+        X = G.derive(ctx, base, "l", script, insx, nba)
+        b, x = G.finalize(base), G.finalize(X)
+        args = mk_args(*cfg)
+        cases = [("identity", b, b, b, b), ("adopt-local", b, x, b, x),
+                 ("adopt-remote", b, b, x, x), ("agreement", b, x, x, x)]
+        for name, bb, ll, rr, want in cases:
+            try:
+                m, ds = run_merge(bb, ll, rr, args)
+            except Exception as ex:  # noqa
+                E.fail("%s-raised" % name, "%s: %s" % (type(ex).__name__, str(ex)[:200]))
+                return
+            E.nontrivial(len(ds) > 0)
+            E.goal("law-with-decisions", len(ds) > 0)
+            E.check("%s-no-conflict" % name, not any(d.conflict for d in ds))
+            E.check("%s-result" % name, json_identical(m, want),
+                    info="config %r script %r %r %r" % (cfg, script, insx, nba))
+    return h, dict(reset=common.nbdime_reset)
+
+
+def make_nbsymmetry(templates, acts="ACTS_SMALL", ins=(0, 0), ids=(0, 1), configs=(0,),
+                    props=("C05",), known=(), sym=("ec", "md")):
+    acts_ = globals()[acts]
+
+    def h(E):
+        from nbdime.diffing.notebooks import diff_notebooks
+        install_env("git")
+        cfg = CLI_CONFIGS[configs[E.choice("cfg", len(configs))] if len(configs) > 1 else configs[0]]
+        b, l, r, info = gen_triple(
+            E, templates, acts_, acts_,
+            INS_SIDE["l"] if ins[0] else [None], INS_SIDE["r"] if ins[1] else [None],
+            ("keep",), ids, sym)
+        args = mk_args(*cfg)
+        if "F16" in known:
+            # F16: a value newly set by local and one newly set by remote are
+            # Python-equal but of different JSON type (agreement is decided by ==)
+            from sx.values import py_equal
+            for x in info["ctx"].fresh_leaves.get("l", []):
+                for y in info["ctx"].fresh_leaves.get("r", []):
+                    E.assume(implies(py_equal(x, y), json_identical(x, y)))
+        dl = diff_notebooks(b, l)
+        dr = diff_notebooks(b, r)
+        if fam_merge.both_insert_same_position(dl, dr):
+            E.goal("symmetry-proviso-excluded")
+            return
+        try:
+            m1, d1 = run_merge(b, l, r, args)
+            m2, d2 = run_merge(b, r, l, args)
+        except Exception as ex:  # noqa
+            E.fail("merge-raised", "%s: %s" % (type(ex).__name__, str(ex)[:200]))
+            return
+        c1 = any(d.conflict for d in d1)
+        c2 = any(d.conflict for d in d2)
+        E.nontrivial(len(d1) > 0)
+        E.goal("conflict", c1)
+        E.check("symmetry-conflict-verdict", c1 == c2,
+                info="conflicted(l,r)=%s conflicted(r,l)=%s scripts %r %r" % (c1, c2, info["sl"], info["sr"]))
+        if not c1 and not c2:
+            E.goal("symmetry-clean")
+            E.check("symmetry-merged-identical", json_identical(m1, m2),
+                    info="scripts %r %r cfg %r" % (info["sl"], info["sr"], cfg))
+    return h, dict(reset=common.nbdime_reset)
+
+
+def nblaw_shards(tier, props, known):
+    kw = dict(props=tuple(props), known=tuple(known))
+    out = []
+    singles = QUICK_TEMPLATES if tier == "quick" else fam_nbdiff.ALL_TEMPLATES
+    cfgs = (0, 2, 4) if tier == "quick" else tuple(range(len(CLI_CONFIGS)))
+    for t in singles:
+        acts = "ACTS_MD" if G.TEMPLATES[t]["type"] == "markdown" else "ACTS_CODE"
+        out.append(("make_nblaws", "nblaw-%s" % t,
+                    dict(templates=(t,), acts=acts, ins=1, nbacts=("keep", "md_edit", "minor"),
+                         configs=cfgs, **kw)))
+    for p in [("codeA", "codeB")] + ([("md", "codeRes2"), ("codeS", "codeS")] if tier == "thorough" else []):
+        out.append(("make_nblaws", "nblaw-%s-%s" % p,
+                    dict(templates=p, acts="ACTS_PAIR", ins=1, configs=cfgs[:2], **kw)))
+    for t in (["codeA", "codeB", "mdAtt"] if tier == "quick" else singles):
+        acts = "ACTS_MD" if G.TEMPLATES[t]["type"] == "markdown" else ("ACTS_SMALL" if tier == "quick" else "ACTS_CODE")
+        out.append(("make_nbsymmetry", "nbsym-%s" % t, dict(templates=(t,), acts=acts, configs=cfgs[:1], **kw)))
+        out.append(("make_nbsymmetry", "nbsym-ins-%s" % t,
+                    dict(templates=(t,), acts="ACTS_INS", ins=(1, 1), configs=cfgs[:1], **kw)))
+    out.append(("make_nbsymmetry", "nbsym-pair", dict(templates=("codeA", "codeB"), acts="ACTS_PAIR",
+                                                      configs=cfgs[:1], **kw)))
+    return out
+
+
+# ------------------------------------------------------------------ C06 (notebooks)
+OWN_ACTS = ["src1", "del", "rerun", "ec", "out_edit", "md_edit", "md_add", "out_clear"]
+OWN_ACTS_SMALL = ["src1", "del", "rerun", "md_edit"]
+
+
+def make_owned(templates, ids=(0, 1), acts="OWN_ACTS", inserts=True, props=("C06",), known=(),
+               sym=("ec", "md")):
+    """Each base cell is owned by nobody, local or remote (E.choice); only the
+    owner changes it.  A side may insert a new cell into a gap only if neither
+    neighbouring cell is owned by the other side, and at most one side inserts
+    into a gap.  Expected result by construction: base with both action sets
+    applied."""
+    acts_ = globals()[acts]
+
+    def h(E):
+        install_env("git")
+        with_ids = ids[E.choice("ids", len(ids))] if len(ids) > 1 else ids[0]
+        ctx = G.Ctx(E, bool(with_ids), sym=sym)
+        base = G.base_notebook(ctx, templates)
+        n = len(templates)
+        owner = [E.choice("own%d" % i, 3) for i in range(n)]
+        sl, sr, se = [], [], []
+        for i, t in enumerate(templates):
+            if owner[i]:
+                al = [a for a in applicable_actions(t, acts_, with_ids) if a != "keep"]
+                a = al[E.choice("act%d" % i, len(al))]
+            else:
+                a = "keep"
+            sl.append(a if owner[i] == 1 else "keep")
+            sr.append(a if owner[i] == 2 else "keep")
+            se.append((a, owner[i]))
+        insl, insr = {}, {}
+        if inserts:
+            for g in range(n + 1):
+                c = E.choice("ins%d" % g, 3)
+                if c:
+                    other = 3 - c
+                    if (g > 0 and owner[g - 1] == other) or (g < n and owner[g] == other):
+                        E.assume(False)
+                    (insl if c == 1 else insr)[g] = "N2" if c == 1 else "Nm"
+        if not (any(o == 1 for o in owner) or insl) or not (any(o == 2 for o in owner) or insr):
+            E.goal("one-sided-only")
+        else:
+            E.goal("both-sides-changed")
+            E.nontrivial(True)
+        # Build local, remote and the expectation with the *same* symbolic
+        # leaves: derive each cell edit once and place it where it belongs.
+        cells_l, cells_r, cells_e = [], [], []
+        for g in range(n + 1):
+            for side, ins in (("l", insl), ("r", insr)):
+                if g in ins:
+                    tm = dict(G.NEW_TEMPLATES[ins[g]])
+                    if with_ids:
+                        tm["id"] = G.NEW_IDS[side][0] + "g%d" % g
+                    c = G.mk_cell(ctx, tm, "%s_i%d" % (side, g))
+                    (cells_l if side == "l" else cells_r).append(c)
+                    cells_e.append(c)
+            if g < n:
+                cell = base["cells"][g]
+                a, o = se[g]
+                if not o:
+                    new = [cell]
+                else:
+                    new = G.apply_action(ctx, cell, a, "%s%d" % ("l" if o == 1 else "r", g))
+                cells_l.extend(new if o == 1 else [cell])
+                cells_r.extend(new if o == 2 else [cell])
+                cells_e.extend(new)
+        L, R, X = dict(base), dict(base), dict(base)
+        L["cells"], R["cells"], X["cells"] = cells_l, cells_r, cells_e
+        b, l, r, want = G.finalize(base), G.finalize(L), G.finalize(R), G.finalize(X)
+        fam_nbdiff.assert_valid_inputs(E, b, l, r)
+        try:
+            m, ds = run_merge(b, l, r, mk_args())
+        except Exception as ex:  # noqa
+            E.fail("merge-raised", "%s: %s" % (type(ex).__name__, str(ex)[:200]))
+            return
+        conf = [dict(path=d.common_path, action=d.action) for d in ds if d.conflict]
+        E.check("different-cells-no-conflict", not conf,
+                info="conflicts %r for owners %r actions %r inserts %r %r" % (conf[:2], owner, se, insl, insr))
+        E.check("different-cells-merged==both-change-sets", json_identical(m, want),
+                info="owners %r actions %r inserts %r %r" % (owner, se, insl, insr))
+    return h, dict(reset=common.nbdime_reset)
+
+
+def owned_shards(tier, props, known):
+    kw = dict(props=tuple(props), known=tuple(known))
+    out = []
+    bases = [("codeA", "codeB"), ("codeA", "md"), ("codeB", "codeRes2")]
+    if tier == "thorough":
+        bases += [("codeA", "codeB", "md"), ("mdAtt", "codeA"), ("raw", "codeB"), ("codeA", "codeB", "raw"),
+                  ("codeB", "md", "codeA")]
+    for tm in bases:
+        out.append(("make_owned", "owned-" + "-".join(tm),
+                    dict(templates=tm, inserts=True, **kw)))
+    if tier == "quick":
+        out.append(("make_owned", "owned3-codeA-codeB-md",
+                    dict(templates=("codeA", "codeB", "md"), inserts=False, acts="OWN_ACTS_SMALL", **kw)))
+    else:
+        out.append(("make_owned", "owned4-codeA-codeB-md-raw",
+                    dict(templates=("codeA", "codeB", "md", "raw"), inserts=False, acts="OWN_ACTS_SMALL", **kw)))
+    return out
+
+
+# ------------------------------------------------------------------ C07 flag clause
+def make_flag(templates, which=0, other_acts="ACTS_INS", tools=TOOLS, props=("C07",), known=(),
+              sym=("ec", "md")):
+    """Id-aligned cells; both sides rewrite the same line of cell `which`
+    differently (variants 1 and 2 of its source family, or 5 and 1 plus 2);
+    the other cells take arbitrary small actions.  Must be flagged as a
+    conflict and present both variants."""
+    acts_ = globals()[other_acts]
+
+    def h(E):
+        tool = tools[E.choice("tool", len(tools))] if len(tools) > 1 else tools[0]
+        install_env(tool)
+        ctx = G.Ctx(E, True, sym=sym)
+        base = G.base_notebook(ctx, templates)
+        swap = E.choice("swap", 2)
+        sl, sr = [], []
+        for i, t in enumerate(templates):
+            if i == which:
+                a, b_ = ("src1", "src2") if not swap else ("src2", "src1")
+                sl.append(a)
+                sr.append(b_)
+            else:
+                al = applicable_actions(t, acts_, True)
+                sl.append(al[E.choice("l%d" % i, len(al))])
+                sr.append(al[E.choice("r%d" % i, len(al))])
+        L = G.derive(ctx, base, "l", sl, {}, "keep")
+        R = G.derive(ctx, base, "r", sr, {}, "keep")
+        b, l, r = G.finalize(base), G.finalize(L), G.finalize(R)
+        fam = G.TEMPLATES[templates[which]]["src"]
+        try:
+            m, ds = run_merge(b, l, r, mk_args())
+        except Exception as ex:  # noqa
+            E.fail("merge-raised", "%s: %s" % (type(ex).__name__, str(ex)[:200]))
+            return
+        E.nontrivial(True)
+        E.goal("same-line-rewritten")
+        E.check("same-line-different-text-is-flagged", any(d.conflict for d in ds))
+        v1 = [ln for ln in G.SRC[fam][1].splitlines() if ln not in G.SRC[fam][0].splitlines()]
+        v2 = [ln for ln in G.SRC[fam][2].splitlines() if ln not in G.SRC[fam][0].splitlines()]
+        merged_lines = set()
+        for s_ in source_lines(m):
+            merged_lines.update(s_.splitlines())
+        missing = [ln for ln in v1 + v2 if ln not in merged_lines]
+        E.check("both-variants-presented", not missing, info="missing %r (tool %s)" % (missing, tool))
+    return h, dict(reset=common.nbdime_reset)
+
+
+def flag_shards(tier, props, known):
+    kw = dict(props=tuple(props), known=tuple(known))
+    out = []
+    for t in ["codeA", "codeB", "md", "raw", "codeS", "mdAtt", "codeRes2"]:
+        out.append(("make_flag", "flag-%s" % t, dict(templates=(t,), which=0, **kw)))
+    out.append(("make_flag", "flag-pair0", dict(templates=("codeA", "codeB"), which=0, **kw)))
+    out.append(("make_flag", "flag-pair1", dict(templates=("codeB", "codeA"), which=1, **kw)))
+    if tier == "thorough":
+        out.append(("make_flag", "flag-tri", dict(templates=("codeB", "codeA", "md"), which=1,
+                                                  other_acts="ACTS_PAIR", **kw)))
+    return out
+
+
+def with_strat(shards, strat, suffix):
+    out = []
+    for f, key, params in shards:
+        p = dict(params)
+        p["strat"] = strat
+        out.append((f, key + suffix, p))
+    return out
+
+
+def with_tool(shards, tool, only=None):
+    out = []
+    for f, key, params in shards:
+        if only and not any(o in key for o in only):
+            continue
+        p = dict(params)
+        p["tool"] = tool
+        out.append((f, key.replace("-git-", "-%s-" % tool), p))
+    return out
+
+
+STUBS = ["nbdime.prettyprint.which -> answers according to the tool selector (git / diff3 / builtin); the real git merge-file / diff3 subprocesses run",
+         "nbformat.v4.nbbase.random_cell_id -> deterministic counter (marker cells get random ids otherwise)",
+         "isinstance inside nbdime modules -> sx.values.sym_isinstance (identical on ordinary objects)",
+         "nbdime module-level differ tables restored to import-time state between paths",
+         "logging silenced"]
+
+BOUNDS = {
+    "quick": {
+        "default-strategy scripts": "one-cell bases over 8 templates: (i) every local action x every remote action (17 code / 11 markdown actions), (ii) every insertion combination (4 x 5) x {keep, del, src1}^2, (iii) notebook-level actions {keep, md_edit, md_add, md_del, minor}^2 on two templates; two-cell base codeA+codeB x 6 actions per cell and side; ids on/off",
+        "strategy product": "19 conflict-prone script pairs x (4 merge x 5 input x 7 output strategies x transients on/off + mergetool) x {git, diff3, builtin}",
+        "leaves": "symbolic: execution counts, metadata values (any JSON scalar type), JSON payload numbers, nbformat_minor of each notebook (0..4, or 5 with ids)",
+    },
+    "thorough": {
+        "default-strategy scripts": "as quick over all 14 templates; five two-cell bases x 6 actions per cell and side plus insertions",
+        "strategy product": "as quick with ids on and off",
+        "leaves": "as quick",
+    },
+}
+OUTSIDE = ["more than two base cells (three in the ownership harness) and more than one insertion per side",
+           "string contents outside the pools of gen/notebooks.py", "merges of notebooks of different major versions",
+           "base notebooks without ids merged with sides that upgraded to ids"]
